@@ -882,7 +882,7 @@ var txCorruptions = []struct {
 	kind int
 }{{"sig-bit", 1}, {"sig-other-key", 1}, {"sig-foreign", 1}, {"sig-masterchain", 1}, {"sig-netid+1", 1}, {"sig-masterchain", 4},
 	{"sig-foreign", 5}, {"nonce+1", 1}, {"nonce-1", 1}, {"fee-1", 1}, {"overdraft", 1}, {"tamper-after-sign", 1}, {"outputs-33", 1},
-	{"outputs-0", 1}, {"overflow-outputs", 1}, {"version-0", 1}, {"version-6-as-1", 1}, {"dup-delegate", 2}, {"delegate-id-0", 2},
+	{"outputs-0", 1}, {"overflow-outputs", 1}, {"overflow-outputs-mid", 1}, {"overflow-outputs-small-total", 1}, {"version-0", 1}, {"version-6-as-1", 1}, {"dup-delegate", 2}, {"delegate-id-0", 2},
 	{"delegate-id-1", 2}, {"name-too-long", 2}, {"wrong-prev-delegate", 3}, {"set-delegate-missing", 3}, {"set-delegate-with-funds", 3},
 	{"stake-below-min", 4}, {"stake-wrong-delegate", 4}, {"stake-wrong-prevunlock", 4}, {"early-unstake", 5}, {"foreign-fund", 5},
 	{"unstake-too-much", 5}, {"unstake-fee-gt-amount", 5}}
